@@ -78,7 +78,60 @@ fn bool_gate_family() -> (usize, usize) {
     (n, bad)
 }
 
+// ---- C14 native premise: re-fake / sibling / drop sequence on real async functions ----
+async fn quota() -> u32 { std::hint::black_box(6) }
+async fn limit() -> u32 { std::hint::black_box(78) }
+async fn by_ref(x: &u32) -> u32 { std::hint::black_box(*x + 1) }
+fn block_on<F: std::future::Future>(f: F) -> F::Output {
+    use std::sync::Arc;
+    use std::task::{Context, Poll, Wake, Waker};
+    struct Noop;
+    impl Wake for Noop { fn wake(self: Arc<Self>) {} }
+    let waker = Waker::from(Arc::new(Noop));
+    let mut cx = Context::from_waker(&waker);
+    let mut f = std::pin::pin!(f);
+    for _ in 0..1000 {
+        if let Poll::Ready(v) = f.as_mut().poll(&mut cx) { return v; }
+    }
+    panic!("future did not complete");
+}
+fn async_sequence() -> i32 {
+    {
+        let mut inj = InjectorPP::new();
+        inj.when_called_async(injectorpp::async_func!(quota(), u32)).will_return_async(injectorpp::async_return!(111, u32));
+        inj.when_called_async(injectorpp::async_func!(limit(), u32)).will_return_async(injectorpp::async_return!(333, u32));
+        if block_on(quota()) != 111 { println!("ASYNCFAIL first fake of quota not in effect"); return 3; }
+        inj.when_called_async(injectorpp::async_func!(quota(), u32)).will_return_async(injectorpp::async_return!(222, u32));
+        let (a, b, c) = (block_on(quota()), block_on(quota()), block_on(limit()));
+        if (a, b, c) != (222, 222, 333) { println!("ASYNCFAIL after re-fake: quota, quota, limit = {a}, {b}, {c} (expected 222, 222, 333)"); return 3; }
+        let seven = 7u32;
+        if block_on(by_ref(&seven)) != 8 { println!("ASYNCFAIL an async function that was not faked changed behaviour"); return 3; }
+    }
+    let (a, c) = (block_on(quota()), block_on(limit()));
+    if (a, c) != (6, 78) { println!("ASYNCFAIL after drop: quota, limit = {a}, {c} (expected 6, 78)"); return 3; }
+    0
+}
+
 fn main() {
+    if std::env::args().nth(1).as_deref() == Some("async") {
+        unsafe {
+            let pid = libc::fork();
+            if pid == 0 {
+                let code = std::panic::catch_unwind(async_sequence).unwrap_or(5);
+                libc::_exit(code);
+            }
+            let mut st: i32 = 0;
+            libc::waitpid(pid, &mut st, 0);
+            if libc::WIFSIGNALED(st) {
+                println!("ASYNCFAIL child killed by signal {} (control went into unmapped memory)", libc::WTERMSIG(st));
+                println!("ASYNCSUMMARY failures=1");
+                std::process::exit(3);
+            }
+            let c = libc::WEXITSTATUS(st);
+            println!("ASYNCSUMMARY failures={}", if c == 0 { 0 } else { 1 });
+            std::process::exit(if c == 0 { 0 } else { 3 });
+        }
+    }
     if std::env::args().nth(1).as_deref() == Some("bool") {
         std::panic::set_hook(Box::new(|_| {}));
         let (n, bad) = bool_gate_family();
